@@ -613,3 +613,21 @@ def dec_spec(r):
     if w == 'U':
         return ('unsupported',)
     return ('error', r.word())
+
+
+def fresh_cli(env_kwargs, argv, optimise=False, env_extra=None, timeout=120):
+    """`peltool.py <argv>` in a SEPARATE interpreter that has the fixture parser modules of PluginEnv(**env_kwargs) installed
+    (harness/freshrun.py): (stdout, stderr, exit status).  `optimise` = python -O; `env_extra` e.g. {'PYTHONIOENCODING': 'ascii'}."""
+    import subprocess
+    def plain(d):
+        return {k: list(v) for k, v in (d or {}).items()}
+    kw = dict(env_kwargs)
+    for k in ('ud', 'src', 'callout'):
+        if k in kw:
+            kw[k] = plain(kw[k])
+    cmd = [common.PY] + (['-O'] if optimise else []) + ['-W', 'ignore', '-B', os.path.join(os.path.dirname(os.path.abspath(__file__)), 'freshrun.py'), json.dumps(kw)] + list(argv)
+    try:
+        p = subprocess.run(cmd, stdout=subprocess.PIPE, stderr=subprocess.PIPE, env=dict(common.child_env(), **(env_extra or {})), timeout=timeout)
+    except subprocess.TimeoutExpired as e:
+        return (e.stdout or b'').decode(errors='replace'), 'HANG\n' + (e.stderr or b'').decode(errors='replace'), -999
+    return p.stdout.decode(errors='replace'), p.stderr.decode(errors='replace'), p.returncode
